@@ -201,7 +201,7 @@ fn instance(rng: &mut Rng) -> (String, &'static str) {
 }
 
 fn separator(rng: &mut Rng) -> (String, &'static str) {
-    match rng.below(14) {
+    match rng.below(15) {
         0 | 1 | 2 => (" ".into(), "sp"),
         3 => ("\t".into(), "sp"),
         4 => ("\n".into(), "sp"),
@@ -212,6 +212,24 @@ fn separator(rng: &mut Rng) -> (String, &'static str) {
         9 => ("/* a\n * b */ ".into(), "block-comment"),
         10 => ("/* a /* b */ c */".into(), "nested-block-comment"),
         11 => ("/* /* /* */ */ x */ ".into(), "nested-block-comment"),
+        12 => {
+            // a random body over the comment delimiters' own characters, closed as deep as it got open
+            // (kept only if the reference reads the whole thing as one comment)
+            let mut body = String::from("/*");
+            for _ in 0..rng.below(10) {
+                body.push_str(["/", "*", " ", "a", "/*", "*/", "/*/", "**", "//", "\n"][rng.below(10)]);
+            }
+            for closers in 0..12 {
+                let probe = format!("{body}x");
+                let r = ref_lex(&probe);
+                if r.len() == 1 && r[0].start == body.len() && r[0].end == probe.len() && r[0].kind == RefKind::Id {
+                    return (body, "random-nested-block-comment");
+                }
+                let _ = closers;
+                body.push_str(" */");
+            }
+            ("/* c */".into(), "block-comment")
+        }
         _ => ("".into(), "none"),
     }
 }
@@ -284,7 +302,7 @@ impl Property for C14 {
         "C14"
     }
     fn rule(&self) -> String {
-        "sequences of 1..12 spec-level token instances (identifiers incl. digit-leading and keyword-prefixed, signed decimal/hex/binary integers incl. i64 boundaries, strings with the five escapes and boundary cases, code fragments, $names, all 25 keywords, all 52 reference bang operators, all 18 punctuation marks) joined by spaces/tabs/LF/CRLF/line comments/block comments/nested block comments or nothing (only where RefLexer's split is unchanged). Oracle: the implementation's non-trivia tokens have exactly the generated boundaries, a kind in the class's allowed set (keywords/operators/punctuation: not Id/Error, equal to the kind of the lexeme alone), and no lexical error; plus an exhaustive table family (every keyword/operator/punctuation alone: pairwise distinct kinds). distinct = digest; non-trivial = >=3 tokens of >=3 classes, or a boundary-case instance".into()
+        "sequences of 1..12 spec-level token instances (identifiers incl. digit-leading and keyword-prefixed, signed decimal/hex/binary integers incl. i64 boundaries, strings with the five escapes and boundary cases, code fragments, $names, all 25 keywords, all 52 reference bang operators, all 18 punctuation marks) joined by spaces/tabs/LF/CRLF/line comments/block comments/nested block comments (fixed shapes and random bodies over '/', '*', '/*', '*/', '/*/' closed as deep as they got open) or nothing (only where RefLexer's split is unchanged). Oracle: the implementation's non-trivia tokens have exactly the generated boundaries, a kind in the class's allowed set (keywords/operators/punctuation: not Id/Error, equal to the kind of the lexeme alone), and no lexical error; plus an exhaustive table family (every keyword/operator/punctuation alone: pairwise distinct kinds). distinct = digest; non-trivial = >=3 tokens of >=3 classes, or a boundary-case instance".into()
     }
     fn assumptions(&self) -> Vec<String> {
         vec!["RefLexer written from the TableGen Programmer's Reference is the oracle for token boundaries; digit-leading identifiers avoid [a-fxb] as first letter (LLVM's own number/identifier heuristics differ from the reference there)".into()]
